@@ -54,6 +54,7 @@ class Fn:
         self.arrays = dict(params["arrays"])           # name -> (base, size)
         self.ptrs = dict(params["ptrs"])               # name -> reg   (written as *name)
         self.nreg = params["nparam"]
+        self.u32 = set(params.get("u32", ()))
         self.loopvars = {}
         self.helpers = helpers
         self.prog = []
@@ -242,6 +243,8 @@ class Fn:
             base, size = self.arrays[tok]
             if not (0 <= k < size):
                 raise TranslateError("%s: %s[%d] out of the declared range %d" % (self.name, tok, k, size))
+            if tok in self.u32:      # a uint32_t object read into a 64-bit expression: zero extension
+                return "(.and (.reg %d) (.const 0xffffffff))" % (base + k)
             return "(.reg %d)" % (base + k)
         if tok in scope:
             return "(.reg %d)" % scope[tok]
@@ -276,7 +279,7 @@ LAYOUT = {
     "sbox": ("br_aes_ct64_bitslice_Sbox", r"uint64_t\s*\*\s*q", dict(scalars={}, arrays={"q": (0, 8)}, ptrs={}, nparam=8)),
     "ortho": ("br_aes_ct64_ortho", r"uint64_t\s*\*\s*q", dict(scalars={}, arrays={"q": (0, 8)}, ptrs={}, nparam=8)),
     "interleave_in": ("br_aes_ct64_interleave_in", r"uint64_t\s*\*\s*q0\s*,\s*uint64_t\s*\*\s*q1\s*,\s*const\s+uint32_t\s*\*\s*w",
-                      dict(scalars={}, arrays={"w": (0, 4)}, ptrs={"q0": 4, "q1": 5}, nparam=6)),
+                      dict(scalars={}, arrays={"w": (0, 4)}, ptrs={"q0": 4, "q1": 5}, nparam=6, u32=["w"])),
     "interleave_out": ("br_aes_ct64_interleave_out", r"uint32_t\s*\*\s*w\s*,\s*uint64_t\s+q0\s*,\s*uint64_t\s+q1",
                        dict(scalars={"q0": 0, "q1": 1}, arrays={"w": (2, 4)}, ptrs={}, nparam=6)),
     "add_round_key": ("add_round_key", r"uint64_t\s*\*\s*q\s*,\s*const\s+uint64_t\s*\*\s*sk",
